@@ -20,7 +20,13 @@ CONSTANTS Steps, MaxSubs, MinSub, Delta, Unit, X0, Starts
 
 VARIABLES P, L, g, phase, res, exact, script
 vars == <<P, L, g, phase, res, exact, script>>
-View == <<P, L, g, phase, res, exact>>            \* the script is a ghost
+(* VIEW: the script is a ghost; positions (x, nd), tokens (it, mom) and the iteration
+   counters neither enable nor change any transition and occur in no checked formula
+   except through quantities kept here, so dropping them is a bisimulation quotient.
+   (Termination is checked with the variant `Progress`, not with the counters.) *)
+View == <<P, L.rem, L.dist, L.left, L.bnd, L.path, L.mgap, L.last, [g EXCEPT !.nd = 0], phase,
+          IF res = <<>> THEN <<>> ELSE <<res.dist, res.bnd, res.loop, res.stuck, res.roundup, res.path>>,
+          exact>>
 
 DrvLabels == {"F", "H", "M", "T"}
 ChordLabels == {"S", "B"}
@@ -54,7 +60,7 @@ Respond(dl, cl, gl) ==
       c == ChordC(s, cl)
       R == [s |-> s, c |-> c, d |-> GeoD(c, gl), b |-> gl # "N"]
       L2 == Iter(P, L, R)
-      g2 == NavRun(g, IterCalls(P, L, R))
+      g2 == NavRun(g, IterCalls(P, L, R), 0)
   IN
   /\ DrvValid(L.rem, dl) /\ ChordValid(s, cl) /\ GeoValid(c, gl)
   /\ L' = L2
@@ -63,10 +69,14 @@ Respond(dl, cl, gl) ==
   /\ IF Continue(P, L2)
        THEN /\ g' = g2 /\ UNCHANGED <<phase, res>>
        ELSE LET t == AfterLoop(P, L2) IN
-            /\ g' = NavRun(g2, t.calls) /\ res' = t /\ phase' = "done"
+            /\ g' = NavRun(g2, t.calls, 0) /\ res' = t /\ phase' = "done"
   /\ UNCHANGED P
 
-Next == phase = "loop" /\ \E dl \in DrvLabels, cl \in ChordLabels, gl \in GeoLabels : Respond(dl, cl, gl)
+NextLoop == phase = "loop" /\ \E dl \in DrvLabels, cl \in ChordLabels, gl \in GeoLabels : Respond(dl, cl, gl)
+Next == \/ NextLoop
+        \/ phase = "done" /\ UNCHANGED vars      \* terminal stuttering: any other deadlock is an error
+\* for -simulate (random behaviours for replay): a behaviour simply ends in its final state
+SpecSim == Init /\ [][NextLoop]_vars
 Spec == Init /\ [][Next]_vars /\ WF_vars(Next)
 
 -----------------------------------------------------------------------------
@@ -78,10 +88,21 @@ NavProtocol == g.ok
 \* C08.Terminates: bounded numbers of accepted / halved / shortened iterations ...
 TerminatesBound == /\ L.acc <= P.maxsub /\ L.nhalf <= HalfBound(P) /\ L.nshort <= ShortBound(P)
                    /\ L.it = L.acc + L.nhalf + L.nshort + (IF L.last = "commit" THEN 1 ELSE 0)
+\* ... because every iteration either spends one unit of the substep budget or shrinks the
+\* trial step by a definite amount (the variant of the loop's convergence argument):
+\* accept: left decreases;  half: rem at least halves;  shorten: rem decreases by > delta
+Progress ==
+  \/ phase = "done"
+  \/ L'.left < L.left
+  \/ L'.last = "half" /\ 2 * L'.rem <= L.rem
+  \/ L'.last = "shorten" /\ L'.rem < L.rem - P.delta /\ L'.rem > P.minsub
+  \/ L'.last = "commit" /\ L'.rem = 0
+ProgressOK == [][Progress]_vars
+\* rem never grows except by an accepted substep (which resets it to step - distance)
 \* ... and every behaviour ends (liveness under weak fairness of the loop)
 Terminates == <>Done
 \* C08.Trichotomy (with the documented fourth outcome: zero progress => bump)
-TrichotomyOK == Done => Trichotomy(res, P.step, P.bump, res.stuck)
+TrichotomyOK == Done => Trichotomy(res, P.step, P.step, P.step, P.bump, res.stuck)
 LoopingOK == Done => (res.loop <=> (L.acc = P.maxsub /\ L.dist < P.step /\ L.last = "accept"))
 \* C08.FlagMatchesGeometry
 FlagMatchesGeometry == Done => res.bnd = g.onb
